@@ -20,6 +20,8 @@ programmer chose.
   C13 an annotated assignment `x: T = v` -> `x = v`; a bare declaration `x: T` is dropped (annotations of
       parameters and returns are never looked at).
   C14 an f-string -> `"<template>".format(<values>)` (constant format specs and conversions kept).
+  C15 `if c: ...; return x  else: REST` (also raise / continue / break) -> the `if` without `else`, followed by REST.
+  C16 a chained assignment of a constant `a = b = 0.0` -> `a = 0.0; b = 0.0`.
   C5  statements without effect (a bare constant expression that is not a docstring; `pass` in a block that has
       other statements) are dropped.
 
@@ -141,7 +143,19 @@ class _Canon(ast.NodeTransformer):
         if not self.pattern:
             n.body = self._split_tuple_assign(n.body)
             n.orelse = self._split_tuple_assign(n.orelse) if n.orelse else n.orelse
-        if n.orelse:
+        if not self.pattern:
+            n.body = self._guard_first(self._unelse(n.body))
+            n.orelse = self._guard_first(self._unelse(n.orelse)) if n.orelse else n.orelse
+        leaves = lambda b: bool(b) and isinstance(b[-1], (ast.Return, ast.Raise, ast.Continue, ast.Break))
+        size = lambda b: sum(1 for st in b for x in ast.walk(st) if isinstance(x, ast.stmt))
+        if n.orelse and not self.pattern and leaves(n.orelse) and (not leaves(n.body) or size(n.orelse) < size(n.body)):
+            # C15 (preparation): the branch that leaves (the shorter one when both leave) becomes the body - a guard
+            # clause - so that the enclosing block can drop the `else`
+            neg = self.visit_UnaryOp(ast.copy_location(ast.UnaryOp(op=ast.Not(), operand=n.test), n.test))
+            n.test, n.body, n.orelse = neg, n.orelse, n.body
+        elif n.orelse and not self.pattern and leaves(n.body) and (not leaves(n.orelse) or size(n.body) < size(n.orelse)):
+            pass        # already in guard form
+        elif n.orelse:
             t, sw = self._positive(n.test)
             if sw:
                 n.test, n.body, n.orelse = t, n.orelse, n.body
@@ -259,9 +273,17 @@ class _Canon(ast.NodeTransformer):
 
     @staticmethod
     def _split_tuple_assign(body):
-        """C12: `a, b = x, y` (names on the left, none of them read on the right) is `a = x; b = y`."""
+        """C12: `a, b = x, y` (names on the left, none of them read on the right) is `a = x; b = y`.
+        C16: `a = b = <constant>` is `a = <constant>; b = <constant>` (an immutable value: no aliasing is lost)."""
         out = []
         for s in body:
+            if isinstance(s, ast.Assign) and len(s.targets) > 1 and isinstance(s.value, ast.Constant) \
+                    and all(isinstance(t, (ast.Name, ast.Attribute)) for t in s.targets):
+                for t in reversed(s.targets):       # Python assigns left to right; order is irrelevant for a constant
+                    pass
+                for t in s.targets:
+                    out.append(ast.copy_location(ast.Assign(targets=[t], value=s.value), s))
+                continue
             if isinstance(s, ast.Assign) and len(s.targets) == 1 and isinstance(s.targets[0], ast.Tuple) \
                     and isinstance(s.value, ast.Tuple) and len(s.value.elts) == len(s.targets[0].elts) \
                     and all(isinstance(t, ast.Name) for t in s.targets[0].elts) \
@@ -275,13 +297,44 @@ class _Canon(ast.NodeTransformer):
             out.append(s)
         return out
 
+    # C15: `if c: ...; return/raise/continue/break  else: REST` -> the `if` without else, followed by REST
+    def _guard_first(self, body):
+        """[..., if c: A (leaves), *REST (leaves at its end, shorter than A)] -> [..., if not c: REST, *A]: of two exits the
+        shorter one is the guard clause, whichever way it was written."""
+        leaves = lambda b: bool(b) and isinstance(b[-1], (ast.Return, ast.Raise, ast.Continue, ast.Break))
+        size = lambda b: sum(1 for st in b for x in ast.walk(st) if isinstance(x, ast.stmt))
+        for i, st in enumerate(body):
+            if isinstance(st, ast.If) and not st.orelse and leaves(st.body) and i + 1 < len(body):
+                rest = body[i + 1:]
+                if leaves(rest) and size(rest) < size(st.body) and not any(isinstance(x, (ast.FunctionDef, ast.ClassDef)) for x in rest):
+                    neg = self.visit_UnaryOp(ast.copy_location(ast.UnaryOp(op=ast.Not(), operand=st.test), st.test))
+                    a = st.body
+                    st.test, st.body = neg, rest
+                    return body[:i + 1] + self._guard_first(a)
+        return body
+
+    @classmethod
+    def _unelse(cls, body):
+        out = []
+        for st in body:
+            if isinstance(st, ast.If) and st.orelse and st.body and isinstance(st.body[-1], (ast.Return, ast.Raise, ast.Continue, ast.Break)):
+                rest = st.orelse
+                st.orelse = []
+                out.append(st)
+                out.extend(cls._unelse(rest))
+            else:
+                out.append(st)
+        return out
+
     def _block(self, n, doc=False):
         self.generic_visit(n)
         for f in ("body", "orelse", "finalbody"):
             b = getattr(n, f, None)
             if isinstance(b, list) and b and isinstance(b[0], ast.stmt):
                 b = self._strip(b, keep_doc=doc and f == "body")
-                setattr(n, f, b if self.pattern else self._split_tuple_assign(b))
+                if not self.pattern:
+                    b = self._guard_first(self._unelse(self._split_tuple_assign(b)))
+                setattr(n, f, b)
         return n
 
     def visit_FunctionDef(self, n):
